@@ -1,5 +1,6 @@
 import PandoraModel.Properties.C02
 import PandoraModel.Properties.C02Zncc
+import PandoraModel.Properties.C02Kernels
 #print axioms Pandora.C02.popcount_source_eq_model
 #print axioms Pandora.C02.typeMeasure_source_eq_model
 #print axioms Pandora.C02.cmax_source_eq_model
@@ -45,3 +46,11 @@ import PandoraModel.Properties.C02Zncc
 #print axioms Pandora.C02.costVolume_nan_or_raw
 #print axioms Pandora.C02.zncc_costVolume_cellOK
 #print axioms Pandora.C02.zncc_sq_le_one
+-- point_interval regenerated from the Python source by translator/pyexpr.py (Properties/C02Kernels.lean)
+#print axioms Pandora.C02Kernels.pointInterval_eq
+#print axioms Pandora.C02Kernels.pointInterval_eq_rat
+#print axioms Pandora.C02Kernels.pointInterval_eq_nonempty
+#print axioms Pandora.C02Kernels.pointInterval_mem_p
+#print axioms Pandora.C02Kernels.pointInterval_q_of_p
+#print axioms Pandora.C02Kernels.dspIndex_eq
+#print axioms Pandora.C02Kernels.dspIndex_toNat
